@@ -175,6 +175,18 @@ def directed(rng):
             specs.append(node(preds=[1], prio=1, res="t"))
         out.append(dict(n=len(specs), specs=specs, maxc=rng.choice([2, 3]), is_async=rng.random() < 0.3, sel=None, nested=False,
                         script=dict(seed=rng.randrange(1 << 30))))
+    for _ in range(4):
+        # a tag carried by a non-sequential node and (later in the description) a sequential one, reconfigured through the tag
+        # by an entry that states the priority only: both keep their own sequential flag
+        kind = rng.choice(["t", "a"])
+        specs = [dict(node(prio=2, res=kind), tag="g0"), dict(node(prio=rng.choice([1, 2, 3]), seq=True, res=rng.choice(["t", "a"])), tag="g0"),
+                 node(prio=1, res=kind), node(prio=0, res=rng.choice(["t", "a"]))]
+        rng.shuffle(specs[2:])
+        sc_ = dict(n=len(specs), specs=specs, maxc=rng.choice([2, 3, 4]), is_async=rng.random() < 0.3, sel=None, nested=False,
+                   script=dict(seed=rng.randrange(1 << 30)),
+                   reconf=dict(how=rng.choice(["dict", "json", "yaml"]), maxc=None, nodes={"tag:g0": dict(priority=rng.choice([4, 7]))},
+                               warmup=rng.random() < 0.3))
+        out.append(sc_)
     return out
 
 
